@@ -66,6 +66,30 @@ fn c01_rebuild_callsite_interest_bounded() {
     assert!(ASKED[2][0].load(AO::SeqCst) == live[2] as usize, "C01.rebuild_callsite_interest.collector2_asked_once_iff_live");
 }
 
+// rebuild_interest's OWN work besides the per-callsite fold (which c01_rebuild_callsite_interest_bounded covers): pruning
+// of dead registrars and the published maximum level.  Empty callsite list, so the cost of the fold is not paid here.
+// BOUND: 2 registrars, each live or dropped, each with any hint or none
+#[kani::proof]
+#[kani::unwind(4)]
+#[kani::stub(core::fmt::Formatter::pad, pad_stub)]
+fn c01_rebuild_interest_prunes_and_publishes_max_level_bounded() {
+    let live: [bool; 2] = nd(); let (hints, hk) = any_hints();
+    let list: Callsites = LinkedList::new();
+    let d0 = Dispatch::__verif_unregistered(Stub { i: 0, answer: [1, 1], hint: hints[0] });
+    let d1 = Dispatch::__verif_unregistered(Stub { i: 1, answer: [1, 1], hint: hints[1] });
+    let mut regs = Vec::with_capacity(2);
+    regs.push(d0.registrar()); regs.push(d1.registrar());
+    if !live[0] { drop(d0); }
+    if !live[1] { drop(d1); }
+    rebuild_interest(&list, &mut regs);
+    assert!(regs.len() == live[0] as usize + live[1] as usize, "C01.rebuild_interest.dead_registrars_removed_live_kept");
+    // MAX_LEVEL = max over LIVE collectors of hint.unwrap_or(TRACE) - a collector without a hint may enable everything -
+    // and OFF when nobody is live
+    let mut want = 0u8; let mut i = 0;
+    while i < 2 { if live[i] { let h = if hk[i] == 6 { 5 } else { hk[i] }; if h > want { want = h; } } i += 1; }
+    assert!(LevelFilter::current() == filter_of(want), "C01.rebuild_interest.max_level_is_max_of_live_hints_none_counts_as_TRACE");
+}
+
 // TIER: thorough
 // NOTE: 775 s / 17 GB measured; the quick tier relies on c01_rebuild_callsite_interest_bounded + the Verus lemmas
 // BOUND: 2 registrars (each live or dropped) x 2 callsites, arbitrary prior cache bytes and prior MAX_LEVEL
